@@ -25,22 +25,26 @@ CONSTANTS Keys, Clients, MaxSize, Costs, TTLs, QCap, BatchMax, MaxEnt, MaxTime,
           OpsPerClient,
           Allowed,        \* [Clients -> SUBSET {"set","del","wait","get","close"}]
           WithTicker,
+          StallOnly,      \* TRUE: the ticker never misses a time unit unless blocked on the policy lock
+          AdvSteps,       \* the amounts by which the clock may jump
+          Thresh,         \* the 30 s look-ahead of getFromShard in model time units
+          Door,           \* doorkeeper on: a new key may be rejected (first sighting / after a reset)
           FixD2,          \* Wait: one wake-up per waiter (per-marker channel), observes cancel
           FixD6,          \* REMOVE event is not ignored for an entry already removed by eviction/expiry
           FixD7,          \* removed flag set after the deadline re-check; aborted expiry re-schedules
           FixD16          \* policy total compared as a signed value
 
-VARIABLES map, ent, nextId, queue, batch, hadWait, mpc, mpend, evicting,
+VARIABLES map, ent, nextId, queue, batch, hadWait, mpc, mpend, evicting, mnew,
           tpc, tpend, tnow, plock, wsize, now, cnow,
           cpc, cop, cnt, closed, cancelled,
           \* ghost ledgers (not part of VIEW)
           notif, nreason, left, need, applied, sentDone, nextTag, bad
 
-vars == <<map, ent, nextId, queue, batch, hadWait, mpc, mpend, evicting, tpc, tpend, tnow,
+vars == <<map, ent, nextId, queue, batch, hadWait, mpc, mpend, evicting, mnew, tpc, tpend, tnow,
           plock, wsize, now, cnow, cpc, cop, cnt, closed, cancelled,
           notif, nreason, left, need, applied, sentDone, nextTag, bad>>
 
-view == <<map, ent, nextId, queue, batch, hadWait, mpc, mpend, evicting, tpc, tpend, tnow,
+view == <<map, ent, nextId, queue, batch, hadWait, mpc, mpend, evicting, mnew, tpc, tpend, tnow,
           plock, wsize, now, cnow, cpc, cop, cnt, closed, cancelled,
           notif, nreason, left, need, applied, sentDone, bad>>
 
@@ -64,7 +68,7 @@ Init ==
   /\ map = [k \in Keys |-> 0]
   /\ ent = [e \in Ids |-> NoEnt]
   /\ nextId = 1
-  /\ queue = <<>> /\ batch = <<>> /\ hadWait = {} /\ mpc = "top" /\ mpend = None /\ evicting = FALSE
+  /\ queue = <<>> /\ batch = <<>> /\ hadWait = {} /\ mpc = "top" /\ mpend = None /\ evicting = FALSE /\ mnew = 0
   /\ tpc = "idle" /\ tpend = None /\ tnow = 0 /\ plock = "free" /\ wsize = 0 /\ now = 1 /\ cnow = 1
   /\ cpc = [c \in Clients |-> "idle"] /\ cop = [c \in Clients |-> NoOp] /\ cnt = [c \in Clients |-> 0]
   /\ closed = FALSE /\ cancelled = FALSE
@@ -72,7 +76,7 @@ Init ==
   /\ need = [c \in Clients |-> {}] /\ applied = {} /\ sentDone = {} /\ nextTag = 1 /\ bad = {}
 
 Ghosts == <<notif, nreason, left, need, applied, sentDone, nextTag, bad>>
-MaintV == <<batch, hadWait, mpc, mpend, evicting>>
+MaintV == <<batch, hadWait, mpc, mpend, evicting, mnew>>
 TickV  == <<tpc, tpend, tnow>>
 CliV   == <<cpc, cop, cnt>>
 
@@ -106,6 +110,14 @@ SetMap(c, k, cost, ttl) ==
   /\ UNCHANGED <<queue, MaintV, TickV, plock, wsize, now, cnow, closed, cancelled,
                  notif, nreason, left, need, applied, sentDone, bad>>
 
+(* Client: Set refused up front (cost above MaxSize) or by the doorkeeper: returns false, stores nothing *)
+SetRefused(c, k, cost) ==
+  /\ CanStart(c, "set")
+  /\ \/ cost > MaxSize
+     \/ Door /\ map[k] = 0 /\ ~closed
+  /\ cnt' = [cnt EXCEPT ![c] = @ + 1]
+  /\ UNCHANGED <<map, ent, nextId, queue, MaintV, TickV, plock, wsize, now, cnow, cpc, cop, closed, cancelled, Ghosts>>
+
 (* Client: Delete (phase 1) *)
 DelMap(c, k) ==
   /\ CanStart(c, "del")
@@ -131,7 +143,6 @@ Send(c) ==
                  notif, nreason, left, need, applied, nextTag, bad>>
 
 (* Client: Get (shard read lock).  Three-way deadline test against the cached clock (M10). *)
-Thresh == 30
 Get(c, k) ==
   /\ CanStart(c, "get")
   /\ LET e == map[k]
@@ -139,7 +150,9 @@ Get(c, k) ==
                 /\ \/ ent[e].dl = 0
                    \/ /\ ent[e].dl - cnow > 0
                       /\ (ent[e].dl - cnow < Thresh => ent[e].dl - now > 0)
-     IN bad' = IF hit /\ ent[e].dl # 0 /\ ent[e].dl <= now THEN bad \cup {"C03_served_after_deadline"} ELSE bad
+     IN bad' = IF hit /\ ent[e].dl # 0 /\ ent[e].dl <= now
+               THEN bad \cup {IF now - cnow >= Thresh THEN "C03_served_after_deadline_stale_clock" ELSE "C03_served_after_deadline"}
+               ELSE bad
   /\ cnt' = [cnt EXCEPT ![c] = @ + 1]
   /\ UNCHANGED <<map, ent, nextId, queue, MaintV, TickV, plock, wsize, now, cnow, cpc, cop, closed, cancelled,
                  notif, nreason, left, need, applied, sentDone, nextTag>>
@@ -170,7 +183,7 @@ WakeShared(c) ==
   /\ cpc' = [cpc EXCEPT ![c] = "idle"] /\ cnt' = [cnt EXCEPT ![c] = @ + 1]
   /\ bad' = Barrier(c)
   /\ mpc' = "unlock" /\ hadWait' = {}
-  /\ UNCHANGED <<map, ent, nextId, queue, batch, mpend, evicting, TickV, plock, wsize, now, cnow, cop, closed, cancelled,
+  /\ UNCHANGED <<map, ent, nextId, mnew, queue, batch, mpend, evicting, TickV, plock, wsize, now, cnow, cop, closed, cancelled,
                  notif, nreason, left, need, applied, sentDone, nextTag>>
 
 \* repaired: the maintenance loop closes the channel of every marker of the batch
@@ -180,7 +193,7 @@ WakeOwn ==
   /\ cnt' = [c \in Clients |-> IF c \in hadWait THEN cnt[c] + 1 ELSE cnt[c]]
   /\ bad' = IF \A c \in hadWait : need[c] \subseteq applied THEN bad ELSE bad \cup {"C20_barrier"}
   /\ mpc' = "unlock" /\ hadWait' = {}
-  /\ UNCHANGED <<map, ent, nextId, queue, batch, mpend, evicting, TickV, plock, wsize, now, cnow, cop, closed, cancelled,
+  /\ UNCHANGED <<map, ent, nextId, mnew, queue, batch, mpend, evicting, TickV, plock, wsize, now, cnow, cop, closed, cancelled,
                  notif, nreason, left, need, applied, sentDone, nextTag>>
 
 (* Client: Close = close every shard (write locks), then cancel under the policy lock *)
@@ -202,18 +215,18 @@ TakeBatch(n) ==
   /\ mpc = "top" /\ n >= 1 /\ n <= Min(Len(queue), BatchMax)
   /\ batch' = SubSeq(queue, 1, n) /\ queue' = SubSeq(queue, n + 1, Len(queue))
   /\ mpc' = "prelock"
-  /\ UNCHANGED <<map, ent, nextId, hadWait, mpend, evicting, TickV, plock, wsize, now, cnow, CliV, closed, cancelled, Ghosts>>
+  /\ UNCHANGED <<map, ent, nextId, mnew, hadWait, mpend, evicting, TickV, plock, wsize, now, cnow, CliV, closed, cancelled, Ghosts>>
 
 \* select{} with the cancellation ready: may exit even when items are queued (M11)
 MExit ==
   /\ mpc = "top" /\ cancelled
   /\ mpc' = "exited"
-  /\ UNCHANGED <<map, ent, nextId, queue, batch, hadWait, mpend, evicting, TickV, plock, wsize, now, cnow, CliV, closed, cancelled, Ghosts>>
+  /\ UNCHANGED <<map, ent, nextId, mnew, queue, batch, hadWait, mpend, evicting, TickV, plock, wsize, now, cnow, CliV, closed, cancelled, Ghosts>>
 
 MLock ==
   /\ mpc = "prelock" /\ plock = "free"
   /\ plock' = "m" /\ mpc' = "apply"
-  /\ UNCHANGED <<map, ent, nextId, queue, batch, hadWait, mpend, evicting, TickV, wsize, now, cnow, CliV, closed, cancelled, Ghosts>>
+  /\ UNCHANGED <<map, ent, nextId, mnew, queue, batch, hadWait, mpend, evicting, TickV, wsize, now, cnow, CliV, closed, cancelled, Ghosts>>
 
 \* sinkWrite(item) up to its first call of removeEntry / the eviction loop
 ApplyHead ==
@@ -262,6 +275,8 @@ ApplyHead ==
                           /\ wsize' = wsize + it.delta
                           /\ evicting' = Over(wsize + it.delta)
                           /\ UNCHANGED mpend
+  /\ mnew' = (LET it == Head(batch) IN
+              IF it.code = "NEW" /\ ~ent[it.id].dd /\ ent[it.id].dl # 0 /\ ent[it.id].dl <= now THEN it.delta ELSE mnew)
   /\ UNCHANGED <<map, nextId, queue, mpc, TickV, plock, now, cnow, CliV, closed, cancelled,
                  notif, nreason, left, need, sentDone, nextTag, bad>>
 
@@ -272,13 +287,13 @@ EvPick(e) ==
   /\ wsize' = wsize - ent[e].pw
   /\ mpend' = <<e, "EVICTED", "in">>
   /\ bad' = IF wsize <= MaxSize THEN bad \cup {"C06_evict_under_capacity"} ELSE bad
-  /\ UNCHANGED <<map, nextId, queue, batch, hadWait, mpc, evicting, TickV, plock, now, cnow, CliV, closed, cancelled,
+  /\ UNCHANGED <<map, nextId, mnew, queue, batch, hadWait, mpc, evicting, TickV, plock, now, cnow, CliV, closed, cancelled,
                  notif, nreason, left, need, applied, sentDone, nextTag>>
 
 EvDone ==
   /\ mpc = "apply" /\ evicting /\ mpend = None /\ (~Over(wsize) \/ Tracked = {})
   /\ evicting' = FALSE
-  /\ UNCHANGED <<map, ent, nextId, queue, batch, hadWait, mpc, mpend, TickV, plock, wsize, now, cnow, CliV, closed, cancelled, Ghosts>>
+  /\ UNCHANGED <<map, ent, nextId, mnew, queue, batch, hadWait, mpc, mpend, TickV, plock, wsize, now, cnow, CliV, closed, cancelled, Ghosts>>
 
 \* removeEntry(entry, reason), split at the verif hook points RemoveIn / Recheck.
 \* who = "m" (maintenance) or "t" (ticker); the pending removal is mpend / tpend.
@@ -311,30 +326,38 @@ RmIn(who) ==
           /\ UNCHANGED <<map, wsize, notif, nreason, left>>
      ELSE /\ RmFinal(e, reason)
           /\ SetPend(who, None)
-  /\ UNCHANGED <<nextId, queue, batch, hadWait, mpc, evicting, tpc, tnow, plock, now, cnow, CliV, closed, cancelled,
+  /\ UNCHANGED <<nextId, mnew, queue, batch, hadWait, mpc, evicting, tpc, tnow, plock, now, cnow, CliV, closed, cancelled,
                  need, applied, sentDone, nextTag, bad>>
 
 RmRecheck(who) ==
-  LET e == Pend(who)[1]  reason == Pend(who)[2] IN
+  LET e == Pend(who)[1]  reason == Pend(who)[2]
+      fromNew == who = "m" /\ mnew # 0 IN
   /\ plock = who /\ Pend(who) # None /\ Pend(who)[3] = "recheck"
   /\ IF ent[e].dl > now
-     THEN \* entry was updated meanwhile: abort.  Pinned: flag stays set, entry stays off the wheel.
-          /\ ent' = [ent EXCEPT ![e].sc = IF FixD7 THEN TRUE ELSE @]
-          /\ UNCHANGED <<map, wsize, notif, nreason, left>>
-     ELSE RmFinal(e, reason)
+     THEN \* entry was updated meanwhile: abort.  Pinned: flag stays set, entry stays off the wheel
+          \* (and a NEW event is dropped).  Repaired: back on the wheel, the NEW event carries on.
+          IF FixD7 /\ fromNew
+          THEN /\ ent' = [ent EXCEPT ![e].sc = TRUE, ![e].pw = @ + mnew, ![e].tr = TRUE]
+               /\ wsize' = wsize + ent[e].pw + mnew
+               /\ evicting' = TRUE
+               /\ UNCHANGED <<map, notif, nreason, left>>
+          ELSE /\ ent' = [ent EXCEPT ![e].sc = IF FixD7 THEN TRUE ELSE @]
+               /\ UNCHANGED <<map, wsize, notif, nreason, left, evicting>>
+     ELSE RmFinal(e, reason) /\ UNCHANGED evicting
   /\ SetPend(who, None)
-  /\ UNCHANGED <<nextId, queue, batch, hadWait, mpc, evicting, tpc, tnow, plock, now, cnow, CliV, closed, cancelled,
+  /\ mnew' = IF who = "m" THEN 0 ELSE mnew
+  /\ UNCHANGED <<nextId, queue, batch, hadWait, mpc, tpc, tnow, plock, now, cnow, CliV, closed, cancelled,
                  need, applied, sentDone, nextTag, bad>>
 
 EndBatch ==
   /\ mpc = "apply" /\ batch = <<>> /\ mpend = None /\ ~evicting
   /\ mpc' = IF hadWait # {} THEN "wake" ELSE "unlock"
-  /\ UNCHANGED <<map, ent, nextId, queue, batch, hadWait, mpend, evicting, TickV, plock, wsize, now, cnow, CliV, closed, cancelled, Ghosts>>
+  /\ UNCHANGED <<map, ent, nextId, mnew, queue, batch, hadWait, mpend, evicting, TickV, plock, wsize, now, cnow, CliV, closed, cancelled, Ghosts>>
 
 MUnlock ==
   /\ mpc = "unlock"
   /\ plock' = "free" /\ mpc' = "top"
-  /\ UNCHANGED <<map, ent, nextId, queue, batch, hadWait, mpend, evicting, TickV, wsize, now, cnow, CliV, closed, cancelled, Ghosts>>
+  /\ UNCHANGED <<map, ent, nextId, mnew, queue, batch, hadWait, mpend, evicting, TickV, wsize, now, cnow, CliV, closed, cancelled, Ghosts>>
 
 -----------------------------------------------------------------------------
 (* Ticker goroutine *)
@@ -358,10 +381,16 @@ TickUnlock ==
   /\ plock' = "free" /\ tpc' = "idle"
   /\ UNCHANGED <<map, ent, nextId, queue, MaintV, tpend, tnow, wsize, now, cnow, CliV, closed, cancelled, Ghosts>>
 
-Advance ==
-  /\ now < MaxTime
-  /\ now' = now + 1
-  /\ UNCHANGED <<map, ent, nextId, queue, MaintV, TickV, plock, wsize, cnow, CliV, closed, cancelled, Ghosts>>
+\* With the ticker running, the cached clock is refreshed every time unit unless the ticker is
+\* kept waiting for the policy lock: time runs ahead of the cached clock only during such a stall.
+Advance(d) ==
+  /\ now + d <= MaxTime
+  /\ (WithTicker /\ StallOnly) => (cnow = now \/ plock # "free")
+  /\ now' = now + d
+  \* a jump of several units with a free-running ticker: it fired during the jump (its expiry work is
+  \* covered by the optional ExpPick steps that follow); the cached clock lags by at most one unit
+  /\ cnow' = IF WithTicker /\ StallOnly /\ plock = "free" /\ tpc = "idle" /\ d > 1 THEN now + d - 1 ELSE cnow
+  /\ UNCHANGED <<map, ent, nextId, queue, MaintV, TickV, plock, wsize, CliV, closed, cancelled, Ghosts>>
 
 -----------------------------------------------------------------------------
 AllDone == \A c \in Clients : cpc[c] = "idle" /\ (cnt[c] = OpsPerClient \/ Allowed[c] = {})
@@ -373,6 +402,7 @@ Finished == AllDone /\ UNCHANGED vars
 
 Next ==
   \/ \E c \in Clients, k \in Keys, cost \in Costs, ttl \in TTLs : SetMap(c, k, cost, ttl)
+  \/ \E c \in Clients, k \in Keys, cost \in Costs : SetRefused(c, k, cost)
   \/ \E c \in Clients, k \in Keys : DelMap(c, k) \/ Get(c, k)
   \/ \E c \in Clients : Send(c) \/ WaitSend(c) \/ WakeShared(c) \/ WaitCancelled(c) \/ CloseShards(c) \/ CloseCancel(c)
   \/ WakeOwn
@@ -380,7 +410,8 @@ Next ==
   \/ MExit \/ MLock \/ ApplyHead \/ EvDone \/ EndBatch \/ MUnlock
   \/ \E e \in Ids : EvPick(e) \/ ExpPick(e)
   \/ RmIn("m") \/ RmRecheck("m") \/ RmIn("t") \/ RmRecheck("t")
-  \/ TickLock \/ TickUnlock \/ Advance
+  \/ TickLock \/ TickUnlock
+  \/ \E d \in AdvSteps : Advance(d)
   \/ Finished
 
 Spec == Init /\ [][Next]_vars
@@ -415,7 +446,9 @@ NotifComplete ==
 
 \* ghost verdicts raised inside actions (C03 served after deadline, C06 eviction under capacity, C20 barrier)
 NoBad == bad = {}
-NoBadC03 == "C03_served_after_deadline" \notin bad
+NoBadC03 == "C03_served_after_deadline" \notin bad /\ "C03_served_after_deadline_stale_clock" \notin bad
+\* what holds of the code as it is: a late hit needs a cached clock older than the look-ahead (D9)
+NoBadC03Fresh == "C03_served_after_deadline" \notin bad
 NoBadC06 == "C06_evict_under_capacity" \notin bad
 NoBadC20 == "C20_barrier" \notin bad
 
